@@ -63,7 +63,7 @@ class StreamCollection:
     def replace(self, stream_dict: Dict[str, Union["Stream", "Stream"]]):
         self._streams = {}
         for stream in stream_dict.values():
-            self._streams[stream.name] = stream
+            self.add(stream)
         self._needs_sort = True
 
     def remove(self, stream_name: str):
